@@ -392,7 +392,8 @@ impl QueryTask {
             .map(|x| &x.limit)
             .unwrap_or(&self.main_phase.limit);
         let limit = lo.limit as usize;
-        let offset = lo.offset as usize;
+        // An offset at or beyond the end of the result selects no rows.
+        let offset = cmp::min(lo.offset as usize, full_result.len());
         let count = cmp::min(limit, full_result.len() - offset);
         full_result.validate().unwrap();
 
